@@ -313,12 +313,22 @@ func (m *Mesh) supervise(l *Link) {
 		if l.silent {
 			p.SetSilent(true)
 		}
+		stillUp := l.up // SetUp(false) may have come in since the check above: it cut the previous session, not this one
 		l.mu.Unlock()
+		if !stillUp {
+			p.Cut()
+			continue
+		}
 		okA := ba.Offer(p.A, 2*time.Second)
 		okB := okA && bb.Offer(p.B, 2*time.Second)
 		if !okA || !okB {
 			p.Cut()
 		}
+		l.mu.Lock()
+		if !l.up {
+			p.Cut() // taken down while the session was being handed over
+		}
+		l.mu.Unlock()
 		select {
 		case <-p.Done():
 		case <-m.ctx.Done():
